@@ -55,6 +55,23 @@ def fwd_call(q, cur):
     return "ok", r
 
 
+class WrongRoot(Exception):
+    pass
+
+
+def check_root(cur, ir):
+    """every internal cursor reachable from a forwarded cursor must live in the target tree"""
+    impl = cur._impl
+    roots = [impl._root]
+    if isinstance(impl, Gap):
+        roots.append(impl._anchor._root)
+    if isinstance(impl, Block):
+        roots.append(impl._anchor._root)
+    for r in roots:
+        if r is not ir:
+            raise WrongRoot(f"{type(impl).__name__} cursor (or its anchor) is rooted in procedure {getattr(r, 'name', '?')!r}, not in the target tree")
+
+
 def resolve(cur):
     """public cursor -> internal impl with validated path; raises on dangling"""
     impl = cur._impl
@@ -123,6 +140,7 @@ def check_stmt_forward(src: PRec, dst: PRec, site, desc, hist, stats):
     if r.proc() is not dst.p:
         raise Violation(blame(desc, "stmt", "wrong-root"), f"{where}: result is not a cursor into the target procedure")
     try:
+        check_root(r, dst.ir)
         F = resolve(r)
     except (KeyboardInterrupt, SystemExit, MemoryError):
         raise
@@ -200,6 +218,7 @@ def check_block_forward(src, dst, site, n, desc, hist, stats):
         stats["block-forward-raises-" + type(r).__name__] += 1
         return "invalid"
     try:
+        check_root(r, dst.ir)
         F = resolve(r)
     except (KeyboardInterrupt, SystemExit, MemoryError):
         raise
@@ -234,7 +253,9 @@ def check_gap_forward(src, dst, site, side, desc, hist, stats):
     if not isinstance(r, PC.GapCursor):
         raise Violation(blame(desc, "gap", "kind-changed"), f"{where}: result is {type(r).__name__}")
     try:
+        check_root(r, dst.ir)
         a = r.anchor()
+        check_root(a, dst.ir)
         an = a._impl._node
         if not isinstance(an, LoopIR.stmt):
             raise ValueError("anchor is not a statement")
